@@ -44,11 +44,11 @@ def fun_by_int(v):
 def conv_node(n, nbp):
     pr = fun_by_int(n["pr"])
     return dict(best=n["best"], known=list(n["known"]), cf=[dict(no=e["no"], id=e["id"], bp=e["bp"], left=e["left"], rng=e["rng"]) for e in n["cf"]],
-                pr=[pr[p] for p in range(nbp)], lib=n["lib"], lpb=n["lpb"], bfl=n["bfl"], ld=bool(n["ld"]))
+                pr=[pr[p] for p in range(nbp)], lib=n["lib"], lpb=n["lpb"], bfl=n["bfl"], ld=bool(n["ld"]), sb=n["sb"])
 
 
 def conv_blk(blk):
-    return [dict(parent=b["parent"], no=b["no"], bp=b["bp"], conf=b["conf"]) for b in blk]
+    return [dict(parent=b["parent"], no=b["no"], bp=b["bp"], conf=b["conf"], bad=b.get("bad", "ok")) for b in blk]
 
 
 def lib_alternatives(blk, node):
@@ -62,7 +62,7 @@ def behaviour(bid, tag, params, states):
     n = params["n"]
     steps = []
     for (act, blk, nodes) in states[1:]:
-        st = dict(name=act["name"], node=act["node"], b=act.get("b", 0), res=act.get("res", ""))
+        st = dict(name=act["name"], node=act["node"], b=act.get("b", 0), a=act.get("a", 0), res=act.get("res", ""))
         if act["name"] != "ByzProduce":
             st["post"] = conv_node(fun_by_int(nodes)[act["node"]], n)
             st["lib_alt"] = lib_alternatives(conv_blk(blk), st["post"])
@@ -197,7 +197,7 @@ def graph_behaviours(res, cfg, tag, rng, max_paths=None, max_len=None):
     if len(trs) < 50:
         raise vlib.Infra("too few transitions from %s: %d" % (cfg, len(trs)))
     params = cfg_params(cfg)
-    g = vlib.graph_from_transitions(trs, lambda s: s[2] == 0 and all(n["best"] == 0 for n in fun_by_int(s[1]).values()))
+    g = vlib.graph_from_transitions(trs, lambda s: s[2] == 0 and all(n["best"] == 0 and not n["known"] for n in fun_by_int(s[1]).values()))
     if not g.init:
         raise vlib.Infra("no initial state among the transitions of " + cfg)
     paths = vlib.edge_cover_paths(g, max_len=max_len, rng=rng)
@@ -258,7 +258,7 @@ def run(c):
     nsim, dsim = (40, 45) if quick else (400, 60)
     # generation configurations also check all properties: one observer, one restart, every transition
     GENS = [("gen3", "Gen_DposLib.cfg", "gen-T3"), ("gen4", "Gen_DposLib_T4.cfg", "gen-T4"), ("gen4s", "Gen_DposLib_T4s.cfg", "gen-T4s"),
-            ("gen4e", "Gen_DposLib_T4e.cfg", "gen-T4e"), ("gen3w", "Gen_DposLib_T3w.cfg", "gen-T3w")]
+            ("gen4e", "Gen_DposLib_T4e.cfg", "gen-T4e"), ("gen3w", "Gen_DposLib_T3w.cfg", "gen-T3w"), ("gen4i", "Gen_DposLib_T4i.cfg", "gen-T4i")]
     CLEAN = [
         ("mc", "MC_DposLib.cfg" if quick else "MC_DposLib_big.cfg", "full protocol, 3 correct producers (= nodes), every interleaving of production, delivery and one restart, %s: all properties" % ("3 blocks" if quick else "4 blocks")),
         ("t3", "MC_DposLib_T3.cfg", "tree T3, TWO observers, every delivery order, 1 restart: all properties"),
@@ -267,7 +267,8 @@ def run(c):
         CLEAN += [("t4", "MC_DposLib_T4.cfg", "tree T4 (a producer cut off builds alone from genesis), 2 restarts: the veto holds at every point, all properties"),
                   ("t4s", "MC_DposLib_T4s.cfg", "tree T4s (reorganisation away from a branch that carried a proposal), 2 restarts: all properties"),
                   ("t4e", "MC_DposLib_T4e.cfg", "tree T4e (fork exactly at the LIB block), 2 restarts: all properties"),
-                  ("t3w", "MC_DposLib_T3w.cfg", "tree T3w (chain longer than the rebuild window, fork at the tip), 2 restarts: all properties")]
+                  ("t3w", "MC_DposLib_T3w.cfg", "tree T3w (chain longer than the rebuild window, fork at the tip), 2 restarts: all properties"),
+                  ("t4i", "MC_DposLib_T4i.cfg", "trees T4i (longer branch with a block that fails in execute() at its 1st/2nd/3rd position; in order and children first), 2 restarts: all properties")]
     jobs = [(k, cfg, 3 if k == "mc" else 1, 1700, None) for (k, cfg, _) in CLEAN]
     jobs += [(k, cfg, 1, 900, None) for (k, cfg, _) in GENS]
     jobs += [
